@@ -295,7 +295,7 @@ def gained_equals_stored(ctx: Ctx):
     from . import c04
     for file, cname in ((c04.BEV, "BEV"), (c04.ICE, "ICE")):
         fn = ctx.repo.func(file, f"{cname}.add_energy")
-        c04.mechatronics_method(ctx, fn, cname, "add_energy", "tick_energy_gained", "up")
+        c04.mechatronics_method(ctx, fn, cname, "add_energy", "tick_energy_gained", "up", bounds=False)
 
 
 def dispensed_keys(ctx: Ctx):
